@@ -6,10 +6,10 @@ Inductive reach (cf : cfg) : st -> Prop :=
 | reach_init : reach cf init
 | reach_step : forall s l s', reach cf s -> step cf s l = Some s' -> reach cf s'.
 
-(* ConnsCount is exactly: connections that exist and are idle / lent / in hand-over, plus dials in flight
+(* ConnsCount is exactly: connections that exist (idle / lent / in hand-over / inside Close), plus dials in flight
    (plus dialConnFor goroutines that failed and are about to give their slot back). *)
 Definition exact_accounting (s : st) : Prop :=
-  cnt s = Z.of_nat (length (held s) + length (dials s) + decs s).
+  cnt s = Z.of_nat (length (held s) + length (closing s) + length (dials s) + decs s).
 
 Definition count_bound (cf : cfg) (s : st) : Prop := 0 <= cnt s <= eff_max cf.
 
@@ -25,10 +25,7 @@ Definition open_bound (cf : cfg) (s : st) : Prop := open_or_dialling s <= eff_ma
 Definition within_deadline (s : st) : Prop :=
   forall w, In w (wants s) -> pending w = true -> clock s <= wdl w.
 
-(* no request is pending, every connection is closed (closing ones may still be in Close) *)
+(* no request is pending, every connection is closed *)
 Definition quiescent (s : st) : Prop :=
-  held s = [] /\ dials s = [] /\ decs s = 0%nat /\ (forall w, In w (wants s) -> pending w = false).
+  held s = [] /\ closing s = [] /\ dials s = [] /\ decs s = 0%nat /\ (forall w, In w (wants s) -> pending w = false).
 
-(* the result an AcquireConn call in the wait path may return *)
-Definition outcome_ok (r : wres) : Prop :=
-  match r with RConn _ | RNoFree | RTimeout | RDialErr => True end.
